@@ -114,9 +114,10 @@ func H_C02_meta() {
 		vAssert(got.freeBucketOffs[i] == idx.freeBucketOffs[i], "C02.meta.index.free.elem")
 	}
 	// db meta
-	db := &DB{opts: opts, hashSeed: vU32("seed")}
+	// complete enough for code that consults the index or the datalog while writing metadata
+	db := &DB{opts: opts, hashSeed: vU32("seed"), index: &index{opts: opts, numKeys: 1, numBuckets: 1}, datalog: &datalog{opts: opts}, metrics: &Metrics{}}
 	vAssert(db.writeMeta() == nil, "C02.meta.db.write")
-	db2 := &DB{opts: opts}
+	db2 := &DB{opts: opts, index: &index{opts: opts, numKeys: 1, numBuckets: 1}, datalog: &datalog{opts: opts}, metrics: &Metrics{}}
 	vAssert(db2.readMeta() == nil, "C02.meta.db.read")
 	vAssert(db2.hashSeed == db.hashSeed, "C02.meta.db.seed")
 	// segment meta
